@@ -18,8 +18,14 @@ def gen(rng, tier):
     freq = '1m' if rng.random() < 0.35 else '1d'
     wo = dict(ndays=rng.randint(6, 30) if freq == '1d' else rng.randint(4, 8), holiday_p=rng.choice([0, 0.15, 0.3]), gap_p=rng.choice([0, 0.05]),
               actions=False, expiry=False, start=rng.choice([datetime.date(2020, 1, 2), datetime.date(2020, 4, 28)]))
+    leaving = freq == '1d' and rng.random() < 0.35
+    if leaving:
+        # instruments that leave the market inside the range (a de-listed stock, an expiring contract) while they are in the universe
+        wo.update(delist=True, expiry=True, ndays=rng.randint(9, 20))
     scn = scenario.gen_trading(rng, dict(freq=freq, world=wo, flows=False, stocks=rng.randint(1, 2), futures=rng.random() < 0.4, p_cancel=0.05,
                                          actions_per_phase=(0, 0, 1, 2)))
+    if leaving and scn['meta']['active_stocks']:
+        scn['universe'] = sorted(set((scn.get('universe') or []) + list(scn['meta']['active_stocks']) + [W.STOCKS[2]] + list(W.FUTS)))
     w = W.gen_world(random.Random(scn['world_seed']), scn['world_opts'])
     days = w.days
     nd = len(days)
@@ -198,7 +204,7 @@ globals().update(acct_prop.make(
     'C08', components=['lifecycle.'], clauses=['C08.'], gen=gen, analyser=analyse, prelude=PRELUDE,
     coq=['Model/Calendar.v', 'Model/EventLoop.v', 'Model/Phases.v', 'Proofs/CalendarFacts.v', 'Proofs/EventLoopFacts.v', 'Gen/ApiPhases.v'], gen_mods=['ApiPhases'],
     rule=('random calendars (holidays, gaps), single-day ranges, ranges starting / ending on non-trading days, daily and minute frequency (stock: 240 '
-          'bars a day, futures: the data source\'s minutes), strategies with any subset of callbacks, universe changes in the middle of the day, '
+          'bars a day, futures: the data source\'s minutes), strategies with any subset of callbacks, universe changes in the middle of the day, universes whose members are de-listed / expire inside the range, '
           'order calls in init / before_trading / after_trading; a case is one whole run: the published BEFORE_TRADING / OPEN_AUCTION / BAR / '
           'AFTER_TRADING / SETTLEMENT sequence with its clocks replayed through Model/EventLoop.v; distinct non-trivial = distinct (frequency x '
           'range length x off-calendar bounds x universe changes x callback subset) classes plus refused (phase x API) pairs'),
